@@ -254,7 +254,8 @@ def run(ctx):
         rep2 = json.load(open(rp))
         if not rep2["failures"]:
             raise vlib.Infra("binary repeat failure did not reproduce: %s" % rep["failures"][:2])
-        ctx.report([{"signature": "binary-output-differs", "detail": f, "family": "tablespar-repeat"} for f in rep["failures"][:5]], "benchstat binary repeat runs")
+        ctx.report([{"signature": "benchstat-does-not-terminate" if "did not terminate" in f else "binary-output-differs", "detail": f, "family": "tablespar-repeat"}
+                    for f in rep["failures"][:5]], "benchstat binary repeat runs")
     # in-process repetition: benchstat() called several times in one process with different flags
     inproc(ctx, q)
     ctx.cov["distinct_nontrivial"] = nontriv
